@@ -22,6 +22,13 @@ TECHNIQUE = "finite ordering domain over predecessor costs (F4), index/affine pa
 W = lambda a, b: ('w', a, b)      # abstract weight application
 
 
+def vr(v):
+    if isinstance(v, Rat):
+        a = v.single_atom()
+        return a if a is not None else repr(v)
+    return repr(v)
+
+
 def _forward_loops(f):
     """the doubly nested loop that fills interior cells: returns (outer, inner)"""
     cands = []
@@ -335,39 +342,73 @@ def _fill_check(ctx):
         raise shape_error('_fillAF_dtw: main loop not found', f.loc())
     l = main[0]
     r = w.range_info(l.iter, State())
-    # every walked cell visited once: range(len(S)-1, -1, -1) or range(len(S))
+    iv = l.target.id if isinstance(l.target, ast.Name) else None
+    if iv is None:
+        raise shape_error('_fillAF_dtw: loop target is not a name', f.loc(l))
+    # every walked cell visited once: range(len(S)-1, -1, -1), range(len(S)), or the cells themselves (in either direction)
     full = False
+    elem = '%s[%s]' % (S, iv)
     if r is not None:
         lo, hi, stp = r
         n = Rat.atom('len(%s)' % S)
         full = (w.rel.is_zero(lo - (n - Rat.const(1))) and w.rel.is_zero(hi + Rat.const(1)) and
                 w.rel.is_zero(stp + Rat.const(1))) or (w.rel.is_zero(lo) and w.rel.is_zero(hi - n) and
                                                         w.rel.is_zero(stp - Rat.const(1)))
+    elif unparse(l.iter) in (S, 'reversed(%s)' % S, '%s[::-1]' % S):
+        full = True
+        elem = iv
     ctx.check(full, 'C18.B', f, 'every cell of the walked path becomes one link',
-              witness={'range': [repr(x) for x in r] if r else None}, node=l, key='fillrange')
-    iv = l.target.id
+              witness={'iterates': unparse(l.iter)}, node=l, key='fillrange')
     st = State({iv: Rat.atom(iv)})
     outs = [o for o in w.run(l.body, st)]
     if len(outs) != 1:
         raise shape_error('_fillAF_dtw loop body is not single-path', f.loc(l))
     evs = outs[0].state.events
     dist = [e for e in evs if e.kind == 'call' and e.name == '_distance']
-    want = {'%s.getObs(%s[%s][1]).position' % (t1, S, iv), '%s.getObs(%s[%s][0]).position' % (t2, S, iv)}
+    want = {'%s.getObs(%s[1]).position' % (t1, elem), '%s.getObs(%s[0]).position' % (t2, elem)}
     got = {a.single_atom() for a in dist[0].args[:2] if isinstance(a, Rat)} if dist else set()
     ctx.check(got == want, 'C18.B', f,
               'a link couples fix S[k][1] of track1 with fix S[k][0] of track2 (column/row of the cost table)',
-              witness={'distance arguments': sorted(x or '?' for x in got)}, node=l, key='fillpair')
+              witness={'distance arguments': sorted(x or '?' for x in got), 'expected': sorted(want)}, node=l, key='fillpair')
     links = [e for e in evs if e.kind == 'store' and e.name.endswith('.nb_links')]
-    okl = len(links) == 1 and links[0].aug == 'Add' and isinstance(links[0].value, Rat) and \
-        w.rel.is_zero(links[0].value - Rat.const(1))
+    okl = len(links) == 1 and isinstance(links[0].value, Rat) and (
+        (links[0].aug == 'Add' and w.rel.is_zero(links[0].value - Rat.const(1))) or
+        (links[0].aug is None and w.rel.is_zero(links[0].value - Rat.atom(links[0].name) - Rat.const(1))))
     ctx.check(okl, 'C18.B', f, 'nb_links is incremented once per link', witness={'stores': [repr(e) for e in links]},
               node=l, key='nblinks')
     apps = [e for e in evs if e.kind == 'call' and e.name == 'append']
     okp = len(apps) == 1 and isinstance(apps[0].args[0], Rat) and \
-        apps[0].args[0].single_atom() == '%s[%s][0]' % (S, iv) and \
-        "'pair', %s[%s][1])" % (S, iv) in (apps[0].value or '').replace('"', "'")
+        apps[0].args[0].single_atom() == '%s[0]' % elem and \
+        "'pair', %s[1])" % elem in (apps[0].value or '').replace('"', "'")
     ctx.check(okp, 'C18.B', f, 'the pair list of fix S[k][1] receives S[k][0]',
               witness={'append': [repr(e) for e in apps]}, node=l, key='pairappend')
+    # the pair lists start empty for every fix of the output: matching an output that already carries a "pair" feature (the result of an
+    # earlier match) must not keep the old links; createAnalyticalFeature leaves an existing feature as it is
+    wo = Walker(f, loop_mode='once')
+    resets = []
+    first_app = None
+    for o in wo.run(body, State()):
+        for e in o.state.events:
+            if e.kind == 'call' and e.name in ('setObsAnalyticalFeature',) and len(e.args) == 3 and e.args[0] == 'pair' and e.args[2] == [] and e.loops:
+                resets.append(e)
+            if e.kind == 'call' and e.name == 'append' and first_app is None:
+                first_app = e
+    okreset = False
+    for e in resets:
+        lp = e.loops[-1]
+        rr = lp.get('range')
+        okreset = okreset or (rr is not None and vr(rr[0]) == '0' and vr(rr[1]) in ('len(%s)' % out, '%s.size()' % out) and vr(rr[2]) == '1' and
+                              vr(e.recv) == out and vr(e.args[1]) == lp['node'].target.id and (first_app is None or e.seq < first_app.seq))
+    cr = ctx.prog.func('tracklib.core.track.Track.createAnalyticalFeature')
+    wc = Walker(cr, loop_mode='skip')
+    keeps = any(o.kind == 'return' and any('hasAnalyticalFeature' in repr(c) and not repr(c).startswith('not ') for c, _ in o.state.conds) and
+                not any(e.kind == 'store' for e in o.state.events) for o in wc.run(body_nodocstring(cr), State()))
+    if keeps:
+        ctx.check(okreset, 'C18.B', f, 'the pair list of every fix of the output is reset to an empty list before the links are appended',
+                  witness={'resets found': [repr(e) for e in resets],
+                           'why': 'the output may already carry a "pair" feature (match(match(a, b), c)): createAnalyticalFeature returns without touching an existing '
+                                  'feature, so the links of the previous matching stay in the lists and the coupling no longer realises the score'},
+                  node=f.node, key='pair-reset')
     # score = T[-1,-1]
     wt = Walker(f, loop_mode='skip')
     o_all = [o for o in wt.run(body, State())]
@@ -390,14 +431,23 @@ def rule_P(ctx):
     if len(lambdas) < 3:
         raise shape_error('_p2weight: expected lambdas for numeric p, p == 0 and p == inf', f.loc())
     kinds = {}
+    wq = Walker(f, loop_mode='skip')
+    fbody = body_nodocstring(f)
     for test, lam in lambdas:
         t = unparse(test)
+        holder = [n for n in ast.walk(f.node) if isinstance(n, ast.If) and n.test is test]
+        stq = wq.state_before(fbody, holder[0]) if holder else None
+        if stq is not None:
+            try:
+                t = t + ' | ' + repr(wq.cond(test, stq))       # the test with the temporaries it uses spelled out
+            except Exception:
+                pass
         if "float('inf')" in t or 'math.inf' in t or 'np.inf' in t:
             kinds['inf'] = lam
         elif isinstance(test, ast.Compare) and isinstance(test.ops[0], ast.Eq) and \
                 isinstance(test.comparators[0], ast.Constant) and test.comparators[0].value == 0:
             kinds['zero'] = lam
-        elif "'int'" in t or "'float'" in t or 'isinstance' in t:
+        elif "'int'" in t or "'float'" in t or 'isinstance' in t or 'int in' in t or 'float in' in t:
             kinds['num'] = lam
     for k in ('num', 'zero', 'inf'):
         if k not in kinds:
@@ -446,6 +496,37 @@ def rule_P(ctx):
                   witness={'call': unparse(calls[0]) if calls else None}, node=g.node, key='fwd:' + fn)
 
 
+def rule_D(ctx):
+    """C18.D ground distance per dimension"""
+    f = ctx.prog.func(MOD + '._distance')
+    p1, p2, dim = f.params[:3]
+    w = Walker(f, loop_mode='skip')
+    want = {1: ('abs(%s.U + -%s.U)' % (p1, p2), 'abs(-%s.U + %s.U)' % (p1, p2)),
+            2: ('%s.distance2DTo(%s)' % (p1, p2), '%s.distance2DTo(%s)' % (p2, p1)),
+            3: ('%s.distanceTo(%s)' % (p1, p2), '%s.distanceTo(%s)' % (p2, p1))}
+    seen = {}
+    for o in w.run(body_nodocstring(f), State()):
+        if o.kind != 'return':
+            continue
+        for c, _ in o.state.conds:
+            for cj in c.conjuncts():
+                if cj.kind == 'cmp' and cj.op == '==' and isinstance(cj.a, Rat) and isinstance(cj.b, Rat):
+                    d = cj.a - cj.b
+                    if set(d.atoms()) == {dim} and d.ispoly():
+                        k = -(d.n.coeff(dim, 0).constval()) / d.n.coeff(dim, 1).constval() if d.n.coeff(dim, 0).isconst() else None
+                        if k in (1, 2, 3):
+                            seen[int(k)] = (vr(o.value), o)
+    if set(seen) != {1, 2, 3}:
+        raise shape_error('_distance: arms for dim 1, 2, 3 not found (%s)' % sorted(seen), f.loc())
+    names = {1: 'the absolute height difference', 2: 'the planar distance', 3: 'the 3-D distance (height included)'}
+    for k in (1, 2, 3):
+        got, o = seen[k]
+        ctx.check(got in want[k], 'C18.D', f, 'with dim = %d the cost of a link is %s' % (k, names[k]),
+                  witness={'returned': got, 'expected': want[k][0],
+                           'why': 'every variant (DTW, FDTW, Frechet) then optimises another cost than the one asked for, consistently, so only the definition shows it'},
+                  node=o.node, key='dim%d' % k)
+
+
 def rule_F(ctx):
     """C18.F fast variant: successor moves, guards, co-update"""
     f = ctx.prog.func(MOD + '._fdtw')
@@ -463,6 +544,11 @@ def rule_F(ctx):
     st = State()                         # every name stands for itself inside the loop body
     for pname in f.params[4:6]:
         st.env[pname] = Rat.const(0)     # verbose / plot off: bookkeeping branches are not part of the search
+    # names defined before the loop from the two sizes (e.g. last_i = N2 - 1) keep their meaning inside it
+    for k, v in pre.env.items():
+        if isinstance(k, str) and k.isidentifier() and k not in (n1, n2) and isinstance(v, Rat) and v.atoms() and \
+                set(v.atoms()) <= {vr(pre.env[n1]), vr(pre.env[n2])}:
+            st.env[k] = v.subst(vr(pre.env[n1]), N1).subst(vr(pre.env[n2]), N2)
     for v in names_stored(loop.body):
         st.env[v] = Rat.atom(v + '@')
     outs = list(w.run(loop.body, st))
@@ -569,5 +655,6 @@ RULES = [
     ('C18.B', rule_B, 'quick'),
     ('C18.P', rule_P, 'quick'),
     ('C18.F', rule_F, 'quick'),
+    ('C18.D', rule_D, 'quick'),
 ]
 MIN_OBLIGATIONS = 20
